@@ -76,6 +76,9 @@ func valBuild(name string, seed uint64) *lib.Build {
 		b.PutFile("m1.bin", rb(lib.BS-1))
 		b.PutFile("t-twin.bin", b.E["t.bin"].Data)   // same bytes as t.bin
 		b.PutFile("b2-twin.bin", b.E["b2.bin"].Data) // same bytes as b2.bin
+		// three identical consecutive blocks + a tail (padding / a repeated record)
+		blk := rb(lib.BS)
+		b.PutFile("rep3.bin", append(append(append(append([]byte(nil), blk...), blk...), blk...), blk[:777]...))
 		b.PutSymlink("lnk", "t.bin")
 		b.PutSymlink("lnk-odd", "./emptydir/../t.bin")
 		b.PutDir("emptydir")
@@ -199,6 +202,35 @@ func c05Cases(tier string, seed uint64, flavor string) []lib.Case {
 		ds := treeDamages(b)
 		for i := 0; i < 25; i++ {
 			cases = append(cases, lib.Case{Kind: "sibling:single", Spec: lib.MustSpec(c05Spec{Build: name, Seed: bs, Sibling: true, Damages: []lib.Damage{ds[r.Intn(len(ds))]}})})
+		}
+	}
+	// two damages in the SAME file: a length change plus a content change below both lengths; and weak-hash-preserving
+	// edits in each of several identical consecutive blocks
+	{
+		bs := lib.Mix(seed, 5, 0)
+		b := valBuild("small", bs)
+		for _, e := range b.Files() {
+			n := int64(len(e.Data))
+			if n < 3 {
+				continue
+			}
+			for _, lc := range []lib.Damage{{Op: "truncate", Path: e.Path, N: n - 1}, {Op: "truncate", Path: e.Path, N: n/2 + 1}, {Op: "extend", Path: e.Path, N: 1}, {Op: "extend", Path: e.Path, N: lib.BS + 3}} {
+				limit := n
+				if lc.Op == "truncate" {
+					limit = lc.N
+				}
+				for _, off := range []int64{0, limit / 2, limit - 1} {
+					if off < 0 || off >= limit {
+						continue
+					}
+					cases = append(cases, lib.Case{Kind: "samefile:" + lc.Op + "+flip", Spec: lib.MustSpec(c05Spec{Build: "small", Seed: bs,
+						Damages: []lib.Damage{{Op: "flip", Path: e.Path, N: off}, lc}})})
+				}
+			}
+		}
+		for blk := int64(0); blk < 4; blk++ {
+			cases = append(cases, lib.Case{Kind: "single:weakkeep-repeated-block", Spec: lib.MustSpec(c05Spec{Build: "small", Seed: bs,
+				Damages: []lib.Damage{{Op: "weakkeep", Path: "rep3.bin", N: blk*lib.BS + 5}}})})
 		}
 	}
 	// the 9 MiB build: a reduced damage list (its block count makes the full list expensive)
@@ -460,7 +492,7 @@ func init() {
 	lib.Register(&lib.Property{
 		ID:          "C05",
 		Level:       "fault_enumeration",
-		Rule:        "for each reference build (files of 0, 10, 64K-1, 64K, 128K, 3*64K+100 bytes, 9 MiB; nested dirs; symlinks incl. dangling and to a directory) every damage of the boundary list is applied alone (bit flips at first/last byte of every block, truncation to every block boundary ±1, extension inside/up to/past the last block, fill of empty files, delete, kind swaps incl. directory -> symlink to a sibling with equal child names, retarget/delete symlinks, retarget to another SPELLING of the signed destination, a +1/-2/+1 edit that keeps the block's weak hash) plus random combinations of 2-5 damages; each damaged tree is validated fail-fast and in wounds-file mode; truth = byte-wise comparison of the damaged tree with the reference; wounds are read from the .pww file by the independent decoder. A case group reuses validator contexts that validated a pristine sibling build (same paths and sizes, every byte xor 0xa5, own signature) before, with damages that put the sibling's bytes into whole blocks. distinct = distinct (build, damage classes, path + boundary class of the offset)",
+		Rule:        "for each reference build (files of 0, 10, 64K-1, 64K, 128K, 3*64K+100 bytes, 9 MiB; nested dirs; symlinks incl. dangling and to a directory) every damage of the boundary list is applied alone (bit flips at first/last byte of every block, truncation to every block boundary ±1, extension inside/up to/past the last block, fill of empty files, delete, kind swaps incl. directory -> symlink to a sibling with equal child names, retarget/delete symlinks, retarget to another SPELLING of the signed destination, a +1/-2/+1 edit that keeps the block's weak hash) plus random combinations of 2-5 damages; each damaged tree is validated fail-fast and in wounds-file mode; truth = byte-wise comparison of the damaged tree with the reference; wounds are read from the .pww file by the independent decoder. Case groups: a length change plus a bit flip below both lengths in the SAME file; weak-hash-preserving edits in each of three identical consecutive blocks; a group reuses validator contexts that validated a pristine sibling build (same paths and sizes, every byte xor 0xa5, own signature) before, with damages that put the sibling's bytes into whole blocks. distinct = distinct (build, damage classes, path + boundary class of the offset)",
 		Assumptions: []string{"a non-nil error from non-fail-fast Validate counts as 'not declared valid' and leaves the coverage clauses unevaluated for that case (counted)", "offsets at or beyond the damaged file's own length are covered by the length clause, not the per-offset clause"},
 		Cases:       c05Cases,
 		Run:         c05Run,
